@@ -216,10 +216,13 @@ def check_proj(run, S, name, spec, kw):
         allc = cons
         just = False
         for label, x, y, forb in single:
+            allowed = None
             for c in cons:
                 m = match(c, x, y)
-                if m is not None and m and m <= (frozenset(forb) | frozenset(['un'])):
-                    just = True         # the path ESTABLISHED a forbidden relation ('un': a NaN operand never satisfies the required one)
+                if m is not None:
+                    allowed = m if allowed is None else (allowed & m)       # (`a < b || a == b` failing: two conditions on one pair)
+            if allowed is not None and allowed <= (frozenset(forb) | frozenset(['un'])):
+                just = True         # the path ESTABLISHED a forbidden relation ('un': a NaN operand never satisfies the required one)
         for alts in either:
             for c in cons:
                 for x, y, al in alts:
